@@ -57,14 +57,14 @@ Fixpoint run_ops (c : cfg) (fs : list file) (s : state) (i : nat) (ops : list op
 
 (* histories over several languages *)
 Definition show_repos (nf nl : nat) (mc : mlcfg) (s : state) (repos : list (nat * list (nat * nat))) : string :=
-  sjoin ";" (map (fun L => if lglob mc L then show_dict nf (mkCfg true false []) s (repo_of repos L) else "-") (seq 0 nl)).
+  sjoin ";" (map (fun L => if lglob mc L then show_dict nf (mkCfg true false [] false) s (repo_of repos L) else "-") (seq 0 nl)).
 Fixpoint run_ops_ml (mc : mlcfg) (fs : list file) (ms : state * list (nat * list (nat * nat))) (i : nat) (ops : list op) : list string :=
   match ops with
   | [] => []
   | OWrite f fc :: t => "w" :: run_ops_ml mc (set_nth f fc fs) ms (S i) t
   | OLoad f :: t =>
       let r := ml_load fs mc f (at_op (fst ms) i, snd ms) in
-      let c := mkCfg (lglob mc (lang mc f)) false [] in
+      let c := mkCfg (lglob mc (lang mc f)) false [] false in
       (show_load (List.length fs) c (fst r, fst (snd r)) ++ "|" ++
        show_repos (List.length fs) (List.length (lglobal mc)) mc (fst (snd r)) (snd (snd r)))
       :: run_ops_ml mc fs (snd r) (S i) t
@@ -73,8 +73,9 @@ Fixpoint run_ops_ml (mc : mlcfg) (fs : list file) (ms : state * list (nat * list
 Definition run_case_ml (lg : list bool) (lo : list nat) (fs : list file) (ops : list op) : string :=
   sjoin " # " (run_ops_ml (mkML lg lo) fs (init_state [], []) 0 ops).
 
-Definition run_case (glob lazy : bool) (builtins : list file) (fs : list file) (ops : list op) : string :=
-  sjoin " # " (run_ops (init_cfg glob lazy builtins) fs (init_state builtins) 0 ops).
+Definition run_case_u (uniq glob lazy : bool) (builtins : list file) (fs : list file) (ops : list op) : string :=
+  sjoin " # " (run_ops (init_cfg_u uniq glob lazy builtins) fs (init_state builtins) 0 ops).
+Definition run_case := run_case_u false.
 
 (* Printing long strings is what costs time in coqc, so the correspondence compares a hash
    of the canonical outcome and asks for the full text only where the hashes differ. *)
@@ -85,5 +86,7 @@ Fixpoint hash_string (s : string) (h : N) : N :=
   end.
 Definition run_case_ml_hash (lg : list bool) (lo : list nat) (fs : list file) (ops : list op) : string :=
   show_N (hash_string (run_case_ml lg lo fs ops) 7).
+Definition run_case_u_hash (uniq glob lazy : bool) (builtins : list file) (fs : list file) (ops : list op) : string :=
+  show_N (hash_string (run_case_u uniq glob lazy builtins fs ops) 7).
 Definition run_case_hash (glob lazy : bool) (builtins : list file) (fs : list file) (ops : list op) : string :=
   show_N (hash_string (run_case glob lazy builtins fs ops) 7).
